@@ -178,6 +178,15 @@ Theorem C06_filter_monotone_emptyset S S' arg arg' xs : ms S = [] -> ms S' = [] 
 Proof. exact (empty_filter_monotone S S' arg arg' xs). Qed.
 Print Assumptions C06_filter_monotone_emptyset.
 
+(* 4'. filter() is idempotent, the fall-back included: filtering its own output under the same setting returns it unchanged *)
+Theorem C06_filter_idempotent_specifier sp o arg xs ys : wf_member sp -> wf_items xs ->
+  spec_filter_v sp o arg xs = Some ys -> spec_filter_v sp o arg ys = Some ys.
+Proof. exact (spec_filter_idempotent sp o arg xs ys). Qed.
+Print Assumptions C06_filter_idempotent_specifier.
+Theorem C06_filter_idempotent_set S arg xs ys : wf_set S -> wf_items xs -> set_filter_v S arg xs = Some ys -> set_filter_v S arg ys = Some ys.
+Proof. exact (set_filter_idempotent S arg xs ys). Qed.
+Print Assumptions C06_filter_idempotent_set.
+
 (* 1'. the layers of the effective setting for sets built from Specifier OBJECTS and for a & b.  A member's own override is a fourth
        layer, which the property text does not mention: SpecifierSet([Specifier(">=1.0", prereleases=True)]) matches 2.0a1. *)
 Theorem C06_effective_of_object_set l p arg :
